@@ -122,6 +122,13 @@ pub fn observe_stream_api<R: Read>(mut r: R, bufs: &[usize], consume: &[u8], api
                     v.push(obs_file_x(&mut f, bufs, false, api)?)
                 } else {
                     let want = if mode == 1 { 0 } else { (f.size() / 2) as usize };
+                    if bufs.contains(&0) {
+                        // a zero-length read before the entry is abandoned (it transfers nothing and changes nothing)
+                        match f.read(&mut [0u8; 0]) {
+                            Ok(0) | Err(_) => {}
+                            Ok(n) => return Err(format!("zero-length read returned {n}")),
+                        }
+                    }
                     let mut got = vec![0u8; want];
                     let mut n = 0;
                     while n < want {
